@@ -28,13 +28,20 @@ Proof. unfold tokens_of. cbn. rewrite !count_kind_app. lia. Qed.
 
 Lemma got_token_cnt k th t :
   cnt k (got_token th t) = count_kind k (tokens_of th) + count_kind k [t].
-Proof. unfold got_token. rewrite cnt_idle by reflexivity. apply tokens_got. Qed.
+Proof.
+  unfold got_token. destruct (in_with th).
+  - rewrite cnt_wbody by reflexivity. unfold tokens_of. cbn. rewrite !count_kind_app. lia.
+  - rewrite cnt_idle by reflexivity. apply tokens_got.
+Qed.
 
 Lemma got_token_tinv s i th t :
   pend th = [] -> Forall (tok_ok s) (tokens_of th) -> tok_ok s t -> tinv s i (got_token th t).
 Proof.
-  intros E F T. apply tinv_idle; [reflexivity|exact E|].
-  unfold got_token, tokens_of in *. cbn. rewrite !Forall_app in *. intuition.
+  intros E F T. unfold got_token. destruct (in_with th).
+  - apply tinv_wbody; [reflexivity|exact E|].
+    unfold tokens_of in *. cbn. rewrite !Forall_app in *. intuition.
+  - apply tinv_idle; [reflexivity|exact E|].
+    unfold tokens_of in *. cbn. rewrite !Forall_app in *. intuition.
 Qed.
 
 Lemma complete_tinv s i th r :
@@ -88,24 +95,52 @@ Lemma count_tokens_of k th :
   count_kind k (held th) + count_kind k (opt_list (cache_r th)) + count_kind k (opt_list (cache_w th)) + count_kind k (pend th).
 Proof. unfold tokens_of. rewrite !count_kind_app. lia. Qed.
 
-Ltac proj := cbn [held cache_r cache_w pend tpc prog res opt_list complete got_token refused set_pc].
+Ltac proj := cbn [held cache_r cache_w pend tpc prog res opt_list complete refused set_pc].
+
+(* TokenManager::return_*_token *)
+Lemma do_ret_ok s i th j :
+  pend th = [] -> Forall (tok_ok s) (tokens_of th) ->
+  tinv s i (do_ret th j) /\
+  cnt KR (do_ret th j) = count_kind KR (tokens_of th) /\
+  cnt KW (do_ret th j) = count_kind KW (tokens_of th).
+Proof.
+  intros E F. pose proof F as F0. apply Forall_tokens_of in F. destruct F as (FH & FR & FW & FP).
+  unfold do_ret. rewrite !(count_tokens_of _ th), E, !count_kind_nil.
+  destruct (nth_error (held th) j) as [x|] eqn:Hn.
+  - pose proof (Forall_nth_error _ _ _ _ FH Hn) as OKx.
+    pose proof (Forall_remove_nth _ _ j FH) as FH'.
+    rewrite (count_kind_remove_nth KR _ _ _ Hn), (count_kind_remove_nth KW _ _ _ Hn).
+    destruct (tk x) eqn:Kx; (split; [|split]);
+      try (apply release_next_tinv; apply Forall_tokens_of; proj; intuition);
+      try (rewrite release_next_cnt by discriminate; rewrite count_tokens_of; proj;
+           rewrite !count_kind_one, ?Kx; lia).
+  - split.
+    + apply complete_tinv; auto.
+    + rewrite !complete_cnt, !count_tokens_of, E, !count_kind_nil. auto.
+Qed.
+
+(* the operations that move a token between a thread and the mailbox *)
+Definition is_mail_op (o : option op) : bool :=
+  match o with Some (Give _) | Some Take => true | _ => false end.
 
 (* a step out of Idle never touches current/min version, the counters or the mutex *)
 Lemma idle_step s i th s' th' :
   tinv s i th -> tpc th = Idle ->
   (requires_sync (lvl s) = false -> cur s = 1 /\ minv s = 1) ->
+  is_mail_op (cur_op th) = false ->
   tstep true i s th = Some (s', th') ->
-  (lvl s' = lvl s /\ cur s' = cur s /\ minv s' = minv s /\ ar s' = ar s /\ aw s' = aw s /\ lck s' = lck s) /\
+  (lvl s' = lvl s /\ cur s' = cur s /\ minv s' = minv s /\ ar s' = ar s /\ aw s' = aw s /\ lck s' = lck s /\
+   mail s' = mail s) /\
   tinv s i th' /\ cnt KR th' = cnt KR th /\ cnt KW th' = cnt KW th.
 Proof.
-  intros T P NS S. pose proof (tinv_tokens _ _ _ T) as F.
+  intros T P NS MO S. pose proof (tinv_tokens _ _ _ T) as F.
   assert (E : pend th = []) by (apply (i_pend _ _ _ T); rewrite P; reflexivity).
   apply Forall_tokens_of in F. destruct F as (FH & FR & FW & FP).
   unfold tstep in S. rewrite P in S.
   assert (KR1 : KR <> KRO) by discriminate. assert (KW1 : KW <> KRO) by discriminate.
   rewrite !(cnt_idle _ th P), !(count_tokens_of _ th), E, !count_kind_nil.
   destruct (cur_op th) as [o|]; [|discriminate].
-  destruct o as [| | | |j|j| | |].
+  destruct o as [| | | |j|j| | | | | |j| | | |]; try discriminate MO.
   - injection S as <- <-. split; [tauto|].
     pose proof (begin_acquire_ok s i th KR T P KR1 NS) as B.
     rewrite !(cnt_idle _ th P), !(count_tokens_of _ th), E, !count_kind_nil in B. exact B.
@@ -145,17 +180,10 @@ Proof.
       * apply complete_tinv; auto. apply Forall_tokens_of. tauto.
       * rewrite !complete_cnt, !count_tokens_of, E, !count_kind_nil. auto.
   - (* Ret j *)
-    destruct (nth_error (held th) j) as [x|] eqn:Hn.
-    + pose proof (Forall_nth_error _ _ _ _ FH Hn) as OKx.
-      pose proof (Forall_remove_nth _ _ j FH) as FH'.
-      rewrite (count_kind_remove_nth KR _ _ _ Hn), (count_kind_remove_nth KW _ _ _ Hn).
-      destruct (tk x) eqn:Kx; injection S as <- <-; (split; [tauto|]); (split; [|split]);
-        try (apply release_next_tinv; apply Forall_tokens_of; proj; intuition);
-        try (rewrite release_next_cnt by discriminate; rewrite count_tokens_of; proj;
-             rewrite !count_kind_one, ?Kx; lia).
-    + injection S as <- <-. split; [tauto|]. split.
-      * apply complete_tinv; auto. apply Forall_tokens_of. tauto.
-      * rewrite !complete_cnt, !count_tokens_of, E, !count_kind_nil. auto.
+    injection S as <- <-. split; [tauto|].
+    assert (F0 : Forall (tok_ok s) (tokens_of th)) by (apply Forall_tokens_of; tauto).
+    pose proof (do_ret_ok s i th j E F0) as B.
+    rewrite !(count_tokens_of _ th), E, !count_kind_nil in B. exact B.
   - (* Clear *)
     injection S as <- <-. split; [tauto|]. split; [|split].
     + apply release_next_tinv. apply Forall_tokens_of. proj. rewrite Forall_app. intuition.
@@ -168,10 +196,108 @@ Proof.
     + apply complete_tinv; auto. apply Forall_tokens_of. tauto.
     + rewrite !complete_cnt, !count_tokens_of, E, !count_kind_nil. auto.
   - (* Reclaim *)
-    destruct (take_safe BULK_FREE_NUM (minv s) (lazy s)) as [fr rest].
+    destruct (process_safe (bulk s) (minv s) (lazy s)) as [fr rest].
     injection S as <- <-. cbn. split; [tauto|]. split.
     + apply complete_tinv; auto. apply Forall_tokens_of. tauto.
     + rewrite !complete_cnt, !count_tokens_of, E, !count_kind_nil. auto.
+  - (* WithR *)
+    destruct (cache_r th) as [c|] eqn:C.
+    + injection S as <- <-. split; [tauto|]. split.
+      * apply got_token_tinv; [exact E| |cbn [opt_list] in FR; inversion FR; assumption].
+        apply Forall_tokens_of. proj. intuition.
+      * rewrite !got_token_cnt, !count_tokens_of. proj. rewrite E, !count_kind_nil. split; lia.
+    + injection S as <- <-. split; [tauto|].
+      pose proof (begin_acquire_ok s i th KR T P KR1 NS) as B.
+      rewrite !(cnt_idle _ th P), !(count_tokens_of _ th), E, C, !count_kind_nil in B. exact B.
+  - (* WithW *)
+    destruct (cache_w th) as [c|] eqn:C.
+    + injection S as <- <-. split; [tauto|]. split.
+      * apply got_token_tinv; [exact E| |cbn [opt_list] in FW; inversion FW; assumption].
+        apply Forall_tokens_of. proj. intuition.
+      * rewrite !got_token_cnt, !count_tokens_of. proj. rewrite E, !count_kind_nil. split; lia.
+    + injection S as <- <-. split; [tauto|].
+      pose proof (begin_acquire_ok s i th KW T P KW1 NS) as B.
+      rewrite !(cnt_idle _ th P), !(count_tokens_of _ th), E, C, !count_kind_nil in B. exact B.
+  - (* RetireN *)
+    injection S as <- <-. cbn. split; [tauto|]. split.
+    + apply complete_tinv; auto. apply Forall_tokens_of. tauto.
+    + rewrite !complete_cnt, !count_tokens_of, E, !count_kind_nil. auto.
+  - (* ReclaimBulk *)
+    destruct (should_bulk (bulk s) (lazy s)).
+    + destruct (process_safe (bulk s) (minv s) (lazy s)) as [fr rest].
+      injection S as <- <-. cbn. split; [tauto|]. split.
+      * apply complete_tinv; auto. apply Forall_tokens_of. tauto.
+      * rewrite !complete_cnt, !count_tokens_of, E, !count_kind_nil. auto.
+    + injection S as <- <-. split; [tauto|]. split.
+      * apply complete_tinv; auto. apply Forall_tokens_of. tauto.
+      * rewrite !complete_cnt, !count_tokens_of, E, !count_kind_nil. auto.
+  - (* ClearStats *)
+    injection S as <- <-. split; [tauto|]. split.
+    + apply complete_tinv; auto. apply Forall_tokens_of. tauto.
+    + rewrite !complete_cnt, !count_tokens_of, E, !count_kind_nil. auto.
+Qed.
+
+(* Give / Take: a token moves between the thread and the mailbox; nothing else changes *)
+Lemma mail_step s i th s' th' :
+  tinv s i th -> tpc th = Idle -> Forall (tok_ok s) (mail s) ->
+  is_mail_op (cur_op th) = true ->
+  tstep true i s th = Some (s', th') ->
+  (lvl s' = lvl s /\ cur s' = cur s /\ minv s' = minv s /\ ar s' = ar s /\ aw s' = aw s /\ lck s' = lck s) /\
+  tinv s i th' /\
+  cnt KR th' + count_kind KR (mail s') = cnt KR th + count_kind KR (mail s) /\
+  cnt KW th' + count_kind KW (mail s') = cnt KW th + count_kind KW (mail s) /\
+  Forall (tok_ok s) (mail s').
+Proof.
+  intros T P FM MO S. pose proof (tinv_tokens _ _ _ T) as F.
+  assert (E : pend th = []) by (apply (i_pend _ _ _ T); rewrite P; reflexivity).
+  apply Forall_tokens_of in F. destruct F as (FH & FR & FW & FP).
+  unfold tstep in S. rewrite P in S.
+  rewrite !(cnt_idle _ th P), !(count_tokens_of _ th), E, !count_kind_nil.
+  destruct (cur_op th) as [o|]; [|discriminate].
+  destruct o as [| | | |j|j| | | | | |j| | | |]; try discriminate MO.
+  - (* Give j *)
+    destruct (nth_error (held th) j) as [x|] eqn:Hn.
+    + injection S as <- <-. cbn [set_mail lvl cur minv ar aw lck mail]. split; [tauto|].
+      pose proof (Forall_nth_error _ _ _ _ FH Hn) as OKx.
+      split; [|split; [|split]].
+      * apply complete_tinv; [exact E|]. apply Forall_tokens_of. proj. intuition.
+        apply Forall_remove_nth; assumption.
+      * rewrite complete_cnt, count_tokens_of. proj.
+        rewrite (count_kind_remove_nth KR _ _ _ Hn), (count_kind_cons KR x (mail s)), count_kind_one, E, count_kind_nil. lia.
+      * rewrite complete_cnt, count_tokens_of. proj.
+        rewrite (count_kind_remove_nth KW _ _ _ Hn), (count_kind_cons KW x (mail s)), count_kind_one, E, count_kind_nil. lia.
+      * constructor; assumption.
+    + injection S as <- <-. split; [tauto|]. split; [|split; [|split]].
+      * apply complete_tinv; auto. apply Forall_tokens_of. tauto.
+      * rewrite complete_cnt, count_tokens_of, E, count_kind_nil. lia.
+      * rewrite complete_cnt, count_tokens_of, E, count_kind_nil. lia.
+      * exact FM.
+  - (* Take *)
+    destruct (mail s) as [|x r] eqn:M.
+    + injection S as <- <-. rewrite M. split; [tauto|]. split; [|split; [|split]].
+      * apply complete_tinv; auto. apply Forall_tokens_of. tauto.
+      * rewrite complete_cnt, count_tokens_of, E, count_kind_nil. lia.
+      * rewrite complete_cnt, count_tokens_of, E, count_kind_nil. lia.
+      * constructor.
+    + injection S as <- <-. cbn [set_mail lvl cur minv ar aw lck mail]. split; [tauto|].
+      inversion FM as [|x0 r0 OKx Fr]; subst x0 r0.
+      split; [|split; [|split]].
+      * apply complete_tinv; [exact E|]. apply Forall_tokens_of. proj. rewrite Forall_app. intuition.
+      * rewrite complete_cnt, count_tokens_of. proj.
+        rewrite count_kind_app, (count_kind_cons KR x r), count_kind_one, E, count_kind_nil. lia.
+      * rewrite complete_cnt, count_tokens_of. proj.
+        rewrite count_kind_app, (count_kind_cons KW x r), count_kind_one, E, count_kind_nil. lia.
+      * exact Fr.
+Qed.
+
+Lemma no_tracked_list (l : list token) :
+  count_kind KR l = 0 -> count_kind KW l = 0 -> forall s', Forall (tok_ok s') l.
+Proof.
+  intros A B s'. induction l as [|x l IH]; [constructor|].
+  rewrite (count_kind_cons KR x l) in A. rewrite (count_kind_cons KW x l) in B.
+  constructor.
+  - apply tok_ok_kro. destruct (tk x); cbn in *; auto; lia.
+  - apply IH; lia.
 Qed.
 
 (* if both counters are zero no thread owns a tracked token *)
@@ -189,7 +315,7 @@ Qed.
 Lemma inflight_not_cs l th : in_cs l (tpc th) = false -> requires_sync l = true -> inflight th = [].
 Proof. unfold inflight. destruct (tpc th); cbn; auto; try discriminate. congruence. Qed.
 
-Ltac shs := cbn [set_lck set_cur set_min set_ar set_aw set_lazy lvl cur minv ar aw lck lazy].
+Ltac shs := cbn [set_lck set_cur set_min set_ar set_aw set_lazy set_mail lvl cur minv ar aw lck lazy mail bulk].
 
 Lemma dec64_pos x : 1 <= x -> dec64 x = x - 1.
 Proof. intros H. unfold dec64. destruct (x =? 0) eqn:E; [lia|reflexivity]. Qed.
@@ -208,26 +334,41 @@ Proof.
   assert (OTH : forall i thi, i <> t -> nth_error (ths st) i = Some thi ->
                 in_cs (lvl (sh st)) (tpc th) = true -> in_cs (lvl (sh st)) (tpc thi) = false).
   { intros i thi Hne Ei Hc. eapply other_not_cs_locked; eauto. exact (g_th _ G _ _ Ei). }
-  assert (RSX : match tpc th with Idle | RDec _ | AInc _ _ _ => True | _ => requires_sync (lvl (sh st)) = true end).
+  assert (RSX : match tpc th with Idle | RDec _ | AInc _ _ _ | WBody => True | _ => requires_sync (lvl (sh st)) = true end).
   { destruct (tpc th); auto; destruct (requires_sync (lvl (sh st))) eqn:E; auto; exfalso; apply (LV eq_refl). }
   pose proof S as S0.
   destruct (tpc th) eqn:P; cbn in KK, FX, CS, EP, FI; try rename RSX into RS;
     unfold tstep in S; rewrite P in S.
   - (* Idle *)
-    destruct (idle_step _ _ _ _ _ T P GN S0) as ((L & C & M & A & W & K) & T' & CR & CW).
-    apply ginv_intro with (th := th); [exact G|exact N| | | | | | | |].
-    + exact L.
-    + lia.
-    + lia.
-    + lia.
-    + rewrite L, W. exact GX.
-    + rewrite L, C, M. exact GN.
-    + eapply tinv_ext; eauto.
-    + intros i thi Hne Ei. eapply tinv_ext; eauto. exact (g_th _ G _ _ Ei).
+    destruct (is_mail_op (cur_op th)) eqn:MO.
+    + (* Give / Take *)
+      destruct (mail_step _ _ _ _ _ T P (g_mail _ G) MO S0) as ((L & C & M & A & W & K) & T' & CR & CW & FM).
+      pose proof (g_ar _ G) as GA. pose proof (g_aw _ G) as GW.
+      apply ginv_intro_gen with (th := th); [exact G|exact N| | | | | | | | |].
+      * exact L.
+      * lia.
+      * lia.
+      * eapply Forall_tok_ok_mono; [| |exact FM]; lia.
+      * lia.
+      * rewrite L, W. exact GX.
+      * rewrite L, C, M. exact GN.
+      * eapply tinv_ext; eauto.
+      * intros i thi Hne Ei. eapply tinv_ext; eauto. exact (g_th _ G _ _ Ei).
+    + destruct (idle_step _ _ _ _ _ T P GN MO S0) as ((L & C & M & A & W & K & ML) & T' & CR & CW).
+      apply ginv_intro with (th := th); [exact G|exact N|exact ML| | | | | | | | |].
+      * eapply Forall_tok_ok_mono; [| |exact (g_mail _ G)]; lia.
+      * exact L.
+      * lia.
+      * lia.
+      * lia.
+      * rewrite L, W. exact GX.
+      * rewrite L, C, M. exact GN.
+      * eapply tinv_ext; eauto.
+      * intros i thi Hne Ei. eapply tinv_ext; eauto. exact (g_th _ G _ _ Ei).
   - (* ALock k *)
     destruct (lck (sh st)) eqn:LK; [discriminate|].
     injection S as <- <-.
-    apply ginv_intro with (th := th); [exact G|exact N| | | | | | | |]; shs.
+    apply ginv_intro with (th := th); [exact G|exact N|reflexivity|mailok G| | | | | | | |]; shs.
     + reflexivity.
     + rewrite cnt_set_pc. unfold cnt. rewrite P. destruct (andb _ _); cbn; lia.
     + rewrite cnt_set_pc. unfold cnt. rewrite P. destruct (andb _ _); cbn; lia.
@@ -242,7 +383,7 @@ Proof.
         [exact (g_th _ G _ _ Ei) | eapply other_not_cs_free; [exact LK|exact (g_th _ G _ _ Ei)] | shs; try reflexivity; lia ..].
   - (* ALoadAw *)
     injection S as <- <-.
-    apply ginv_intro with (th := th); [exact G|exact N| | | | | | | |].
+    apply ginv_intro with (th := th); [exact G|exact N|reflexivity|mailok G| | | | | | | |].
     + reflexivity.
     + rewrite cnt_set_pc. unfold cnt. rewrite P. destruct (0 <? aw (sh st)); cbn; lia.
     + rewrite cnt_set_pc. unfold cnt. rewrite P. destruct (0 <? aw (sh st)); cbn; lia.
@@ -254,7 +395,7 @@ Proof.
     + intros i thi Hne Ei. exact (g_th _ G _ _ Ei).
   - (* ABusyUnlock *)
     injection S as <- <-.
-    apply ginv_intro with (th := th); [exact G|exact N| | | | | | | |]; shs.
+    apply ginv_intro with (th := th); [exact G|exact N|reflexivity|mailok G| | | | | | | |]; shs.
     + reflexivity.
     + unfold refused. rewrite complete_cnt. unfold cnt. rewrite P. cbn. lia.
     + unfold refused. rewrite complete_cnt. unfold cnt. rewrite P. cbn. lia.
@@ -266,7 +407,7 @@ Proof.
         [exact (g_th _ G _ _ Ei) | eapply OTH; eauto | shs; try reflexivity; lia ..].
   - (* ALoadMin k *)
     injection S as <- <-.
-    apply ginv_intro with (th := th); [exact G|exact N| | | | | | | |].
+    apply ginv_intro with (th := th); [exact G|exact N|reflexivity|mailok G| | | | | | | |].
     + reflexivity.
     + rewrite cnt_set_pc. unfold cnt. rewrite P. cbn. lia.
     + rewrite cnt_set_pc. unfold cnt. rewrite P. cbn. lia.
@@ -277,7 +418,7 @@ Proof.
     + intros i thi Hne Ei. exact (g_th _ G _ _ Ei).
   - (* AFadd k m *)
     injection S as <- <-.
-    apply ginv_intro with (th := th); [exact G|exact N| | | | | | | |]; shs.
+    apply ginv_intro with (th := th); [exact G|exact N|reflexivity|mailok G| | | | | | | |]; shs.
     + reflexivity.
     + rewrite cnt_set_pc. unfold cnt. rewrite P. cbn. lia.
     + rewrite cnt_set_pc. unfold cnt. rewrite P. cbn. lia.
@@ -293,7 +434,7 @@ Proof.
   - (* AUnlock k m v *)
     injection S as <- <-.
     inversion FI as [|x l OKT _]; subst.
-    apply ginv_intro with (th := th); [exact G|exact N| | | | | | | |]; shs.
+    apply ginv_intro with (th := th); [exact G|exact N|reflexivity|mailok G| | | | | | | |]; shs.
     + reflexivity.
     + rewrite got_token_cnt, count_kind_one. unfold cnt. rewrite P. cbn. lia.
     + rewrite got_token_cnt, count_kind_one. unfold cnt. rewrite P. cbn. lia.
@@ -308,7 +449,7 @@ Proof.
     clear RS. destruct (requires_sync (lvl (sh st))) eqn:RS; cbn [andb] in S.
     + (* synchronised level: still inside the critical section *)
       destruct k; try congruence; injection S as <- <-;
-        (apply ginv_intro with (th := th); [exact G|exact N| | | | | | | |]; shs; unfold inc64;
+        (apply ginv_intro with (th := th); [exact G|exact N|reflexivity|mailok G| | | | | | | |]; shs; unfold inc64;
          [ reflexivity
          | rewrite cnt_set_pc; unfold cnt; rewrite P; cbn; lia
          | rewrite cnt_set_pc; unfold cnt; rewrite P; cbn; lia
@@ -322,7 +463,7 @@ Proof.
     + (* single-threaded level *)
       assert (NL3 : lvl (sh st) = 3 -> False) by (intros L3; apply lvl3_sync in L3; congruence).
       destruct k; try congruence; injection S as <- <-;
-        (apply ginv_intro with (th := th); [exact G|exact N| | | | | | | |]; shs; unfold inc64;
+        (apply ginv_intro with (th := th); [exact G|exact N|reflexivity|mailok G| | | | | | | |]; shs; unfold inc64;
          [ reflexivity
          | rewrite got_token_cnt, count_kind_one; unfold cnt; rewrite P; cbn; lia
          | rewrite got_token_cnt, count_kind_one; unfold cnt; rewrite P; cbn; lia
@@ -341,7 +482,7 @@ Proof.
       assert (X1 : 1 <= cnt KR th) by (unfold cnt; rewrite P; cbn; rewrite K; cbn; lia). lia. }
     clear RS. destruct (requires_sync (lvl (sh st))) eqn:RS.
     + destruct (tk t0) eqn:K; try congruence; injection S as <- <-;
-        (apply ginv_intro with (th := th); [exact G|exact N| | | | | | | |]; shs; rewrite ?dec64_pos by auto;
+        (apply ginv_intro with (th := th); [exact G|exact N|reflexivity|mailok G| | | | | | | |]; shs; rewrite ?dec64_pos by auto;
          [ reflexivity
          | rewrite cnt_set_pc; unfold cnt; rewrite P; cbn; rewrite K; cbn; try specialize (C1 eq_refl); try specialize (C2 eq_refl); lia
          | rewrite cnt_set_pc; unfold cnt; rewrite P; cbn; rewrite K; cbn; try specialize (C1 eq_refl); try specialize (C2 eq_refl); lia
@@ -351,7 +492,7 @@ Proof.
          | apply tinv_set_pc; shs; cbn; auto; try discriminate; apply sync_level_ok; exact RS
          | intros i thi Hne Ei; rewrite <- ?dec64_pos by auto; (apply tinv_dec_ar || apply tinv_dec_aw); auto; exact (g_th _ G _ _ Ei) ]).
     + destruct (tk t0) eqn:K; try congruence; injection S as <- <-;
-        (apply ginv_intro with (th := th); [exact G|exact N| | | | | | | |]; shs; rewrite ?dec64_pos by auto;
+        (apply ginv_intro with (th := th); [exact G|exact N|reflexivity|mailok G| | | | | | | |]; shs; rewrite ?dec64_pos by auto;
          [ reflexivity
          | rewrite release_next_cnt by discriminate; unfold cnt; rewrite P; cbn; rewrite K; cbn; try specialize (C1 eq_refl); try specialize (C2 eq_refl); lia
          | rewrite release_next_cnt by discriminate; unfold cnt; rewrite P; cbn; rewrite K; cbn; try specialize (C1 eq_refl); try specialize (C2 eq_refl); lia
@@ -363,7 +504,7 @@ Proof.
   - (* TLock *)
     destruct (lck (sh st)) eqn:LK; [discriminate|].
     injection S as <- <-.
-    apply ginv_intro with (th := th); [exact G|exact N| | | | | | | |]; shs.
+    apply ginv_intro with (th := th); [exact G|exact N|reflexivity|mailok G| | | | | | | |]; shs.
     + reflexivity.
     + rewrite cnt_set_pc. unfold cnt. rewrite P. cbn. lia.
     + rewrite cnt_set_pc. unfold cnt. rewrite P. cbn. lia.
@@ -375,7 +516,7 @@ Proof.
         [exact (g_th _ G _ _ Ei) | eapply other_not_cs_free; [exact LK|exact (g_th _ G _ _ Ei)] | shs; try reflexivity; lia ..].
   - (* TLoadAr *)
     injection S as <- <-.
-    apply ginv_intro with (th := th); [exact G|exact N| | | | | | | |].
+    apply ginv_intro with (th := th); [exact G|exact N|reflexivity|mailok G| | | | | | | |].
     + reflexivity.
     + destruct (ar (sh st) =? 0); rewrite cnt_set_pc; unfold cnt; rewrite P; cbn; lia.
     + destruct (ar (sh st) =? 0); rewrite cnt_set_pc; unfold cnt; rewrite P; cbn; lia.
@@ -387,7 +528,7 @@ Proof.
     + intros i thi Hne Ei. exact (g_th _ G _ _ Ei).
   - (* TLoadAw *)
     injection S as <- <-.
-    apply ginv_intro with (th := th); [exact G|exact N| | | | | | | |].
+    apply ginv_intro with (th := th); [exact G|exact N|reflexivity|mailok G| | | | | | | |].
     + reflexivity.
     + destruct (aw (sh st) =? 0); rewrite cnt_set_pc; unfold cnt; rewrite P; cbn; lia.
     + destruct (aw (sh st) =? 0); rewrite cnt_set_pc; unfold cnt; rewrite P; cbn; lia.
@@ -399,7 +540,7 @@ Proof.
     + intros i thi Hne Ei. exact (g_th _ G _ _ Ei).
   - (* TLoadCur *)
     injection S as <- <-.
-    apply ginv_intro with (th := th); [exact G|exact N| | | | | | | |].
+    apply ginv_intro with (th := th); [exact G|exact N|reflexivity|mailok G| | | | | | | |].
     + reflexivity.
     + rewrite cnt_set_pc. unfold cnt. rewrite P. cbn. lia.
     + rewrite cnt_set_pc. unfold cnt. rewrite P. cbn. lia.
@@ -414,9 +555,13 @@ Proof.
     assert (Z : forall i thi, nth_error (ths st) i = Some thi ->
                 forall s0, Forall (tok_ok s0) (tokens_of thi)).
     { intros i thi Ei. apply no_tracked_tokens.
-      - pose proof (sumf_ge (cnt KR) _ _ _ Ei) as X. rewrite <- (g_ar _ G) in X. unfold cnt in X. lia.
-      - pose proof (sumf_ge (cnt KW) _ _ _ Ei) as X. rewrite <- (g_aw _ G) in X. unfold cnt in X. lia. }
-    apply ginv_intro with (th := th); [exact G|exact N| | | | | | | |]; shs.
+      - pose proof (sumf_ge (cnt KR) _ _ _ Ei) as X. pose proof (g_ar _ G) as Y. unfold cnt in X, Y. lia.
+      - pose proof (sumf_ge (cnt KW) _ _ _ Ei) as X. pose proof (g_aw _ G) as Y. unfold cnt in X, Y. lia. }
+    assert (ZM : forall s0, Forall (tok_ok s0) (mail (sh st))).
+    { apply no_tracked_list.
+      - pose proof (g_ar _ G). lia.
+      - pose proof (g_aw _ G). lia. }
+    apply ginv_intro with (th := th); [exact G|exact N|reflexivity|apply ZM| | | | | | | |]; shs.
     + reflexivity.
     + rewrite cnt_set_pc. unfold cnt. rewrite P. cbn. lia.
     + rewrite cnt_set_pc. unfold cnt. rewrite P. cbn. lia.
@@ -431,7 +576,7 @@ Proof.
       rewrite app_nil_r. eapply Z; eauto.
   - (* TUnlock *)
     injection S as <- <-.
-    apply ginv_intro with (th := th); [exact G|exact N| | | | | | | |]; shs.
+    apply ginv_intro with (th := th); [exact G|exact N|reflexivity|mailok G| | | | | | | |]; shs.
     + reflexivity.
     + rewrite release_next_cnt by discriminate. unfold cnt. rewrite P. cbn. lia.
     + rewrite release_next_cnt by discriminate. unfold cnt. rewrite P. cbn. lia.
@@ -441,4 +586,16 @@ Proof.
     + apply release_next_tinv. auto.
     + intros i thi Hne Ei. eapply others_frame;
         [exact (g_th _ G _ _ Ei) | eapply OTH; eauto | shs; try reflexivity; lia ..].
+  - (* WBody: the closure of with_*_token returns, the token goes back to the thread cache *)
+    injection S as <- <-.
+    destruct (do_ret_ok (sh st) t th (pred (length (held th))) (EP eq_refl) F) as (T' & CR & CW).
+    apply ginv_intro with (th := th); [exact G|exact N|reflexivity|mailok G| | | | | | | |].
+    + reflexivity.
+    + rewrite CR. unfold cnt. rewrite P. cbn. lia.
+    + rewrite CW. unfold cnt. rewrite P. cbn. lia.
+    + lia.
+    + exact GX.
+    + exact GN.
+    + exact T'.
+    + intros i thi Hne Ei. exact (g_th _ G _ _ Ei).
 Qed.
